@@ -603,15 +603,25 @@ func allocates(info *types.Info, e ast.Expr, v types.Object, owner, fld string) 
 func lenDomain(info *types.Info, facts []Fact, v types.Object) map[int]bool {
 	d := map[int]bool{0: true, 1: true, 2: true, 3: true}
 	for _, f := range facts {
-		be, ok := ast.Unparen(f.Expr).(*ast.BinaryExpr)
-		if !ok || f.Tag != nil {
-			continue
-		}
-		x, y, op := be.X, be.Y, be.Op
 		isLen := func(e ast.Expr) bool {
 			c, ok := ast.Unparen(e).(*ast.CallExpr)
 			return ok && calleeBuiltin(info, c) == "len" && len(c.Args) == 1 && objOf(info, c.Args[0]) == v
 		}
+		var be *ast.BinaryExpr
+		if f.Tag != nil {
+			// `switch len(v) { case k:` is the fact len(v) == k
+			if !isLen(f.Tag) {
+				continue
+			}
+			be = &ast.BinaryExpr{X: f.Tag, Op: token.EQL, Y: f.Expr}
+		} else {
+			b2, ok := ast.Unparen(f.Expr).(*ast.BinaryExpr)
+			if !ok {
+				continue
+			}
+			be = b2
+		}
+		x, y, op := be.X, be.Y, be.Op
 		if isLen(y) {
 			x, y = y, x
 			switch op {
@@ -3089,10 +3099,26 @@ func ruleOptimisedDisjunctionKeepsMin(r *Report, rule string) {
 					if !g.ReachesFwdNode(as, rs) {
 						return true
 					}
-					rf := factsString(g.RawGuardsOf(rs))
+					retFacts := g.RawGuardsOf(rs)
+					rf := factsString(retFacts)
 					for _, fct := range g.RawGuardsOf(as) { // universal: the conditions as written
 						if strings.Contains(rf, fct.String()) {
 							continue
+						}
+						if e, isEq, isNil := nilTest(info, fct.Expr); isNil && fct.Tag == nil {
+							if isErrorType(info.TypeOf(e)) && isEq == fct.Truth {
+								continue // "no error so far": the success path
+							}
+							// the same nil fact in the other spelling (`!(x == nil)` / `x != nil`) at the return
+							same := false
+							for _, rfct := range retFacts {
+								if e2, isEq2, isNil2 := nilTest(info, rfct.Expr); isNil2 && rfct.Tag == nil && exprStr(e2) == exprStr(e) && (isEq2 == rfct.Truth) == (isEq == fct.Truth) {
+									same = true
+								}
+							}
+							if same {
+								continue
+							}
 						}
 						if _, isIdent := ast.Unparen(fct.Expr).(*ast.Ident); !isIdent || !fct.Truth {
 							return true
@@ -4279,6 +4305,25 @@ func ruleRangeBoundsAreOpaqueBits(r *Report, rule string) {
 		undecidedf("%s: expected two *float64 bounds", fi.Name)
 	}
 	n := 0
+	// a pointer local that received a bound parameter by plain copy is the same bound
+	for changed := true; changed; {
+		changed = false
+		ast.Inspect(fi.Decl.Body, func(x ast.Node) bool {
+			as, ok := x.(*ast.AssignStmt)
+			if !ok || len(as.Lhs) != len(as.Rhs) {
+				return true
+			}
+			for k := range as.Rhs {
+				if id, isID := ast.Unparen(as.Rhs[k]).(*ast.Ident); isID && bounds[info.ObjectOf(id)] {
+					if o := objOf(info, as.Lhs[k]); o != nil && !bounds[o] {
+						bounds[o] = true
+						changed = true
+					}
+				}
+			}
+			return true
+		})
+	}
 	// the bound's value: a dereference of a bound parameter, or a local that received one by plain copy
 	tainted := map[types.Object]bool{}
 	isBoundValue := func(e ast.Expr) bool {
